@@ -1,10 +1,12 @@
 #!/bin/sh
-# Runs the quick check of its property against every confirmed seeded change; writes seeded/RESULTS.txt
+# Runs the quick check of its property against every confirmed seeded change at VERIF_SEED=$1 (default 1);
+# writes seeded/RESULTS.s<seed>.txt (one line per change: VIOLATION = reported, OK = missed).
 cd "$(dirname "$0")/.." || exit 1
-OUT=seeded/RESULTS.txt; : > $OUT.tmp
+S=${1:-1}
+OUT=seeded/RESULTS.s$S.txt; : > $OUT.tmp
 for d in seeded/C*/; do
   id=$(basename $d); prop=${id%-*}
-  r=$(tools/mutcheck.sh $d/patch.diff $prop quick ${1:-1} | grep -E "^(VIOLATION|OK|INCONCLUSIVE|PATCH)" | head -1 | sed 's/replay=.*//' )
-  echo "$id $r" | tee -a $OUT.tmp
+  r=$(tools/mutcheck.sh $d/patch.diff $prop quick $S | grep -E "^(VIOLATION|OK|INCONCLUSIVE|PATCH)" | head -1 | sed 's/replay=.*//' )
+  echo "$id $r" >> $OUT.tmp
 done
 mv $OUT.tmp $OUT
